@@ -540,6 +540,21 @@ func TestVerifC10(t *testing.T) {
 		c.R.Count("max_object_number_files", 1)
 		c.Distinct(fmt.Sprint(c.Index))
 	})
+	// large documents: many encrypted strings and streams from one Writer
+	// (IV generation and key handling must not degrade with the count)
+	r.Phase("large-documents", r.N(48, 1200), func(c *kit.Case) {
+		v := kit.Pick(c.Rng, []pdf.Version{pdf.V1_4, pdf.V1_6, pdf.V1_7, pdf.V2_0, pdf.V2_0})
+		cfg := gen.CryptConfig{Version: v, UserPW: "user", OwnerPW: "owner", Perm: pdf.Perm(c.Rng.Intn(128)), Seekable: c.Rng.Bool(),
+			NumObjects: kit.Pick(c.Rng, []int{100, 200, 300, 600})}
+		d, err := gen.BuildCryptDoc(c.Rng, cfg)
+		if err != nil {
+			c.Violationf("writer-refused/"+cfg.Cipher(), "%s\n%v", cfg.String(), err)
+			return
+		}
+		c10CheckLibraryFile(c, d, map[string]bool{})
+		c.R.Count("large_documents_checked", 1)
+		c.Distinct(fmt.Sprintf("large|%s|%d", cfg.String(), len(d.Data)))
+	})
 	r.Phase("foreign-files", r.N(2000, 50000), func(c *kit.Case) {
 		c10Foreign(c)
 		c.Distinct(fmt.Sprint(c.Index, c.Rng.Uint64()))
